@@ -15,6 +15,7 @@ RECURSIVE Omit(_, _, _), Body(_, _, _), Framed(_, _, _, _), Fields(_, _, _, _), 
 Omit(cfg, T0, v) == LET T == Resolve(T0) IN
   CASE T.k = "bool" -> ~v
     [] T.k \in {"int", "uint", "marked"} -> v.mag = <<>>
+    [] T.k = "refid" -> v[1].mag = <<>>
     [] T.k \in {"f32", "f64"} -> IsZeroFloat(v)
     [] T.k = "string" -> v = <<>>
     [] T.k = "bytes" -> v.b = <<>>
@@ -70,6 +71,7 @@ Body(cfg, T0, v) == LET T == Resolve(T0) IN
     \* the marker codec writes the 32-bit two's complement pattern as a little-endian fixed32, plus 7 in the first byte position
     \* being unnecessary: the wire type alone distinguishes it from the kind's default (zig-zag varint)
     [] T.k = "marked" -> IF Marker(cfg, T) THEN LE32(Bits(32, v)) ELSE AppendVarInt(v)
+    [] T.k = "refid" -> LE32(Bits(32, v[1]))          \* the registered reference codec: the first field (an int32) as a fixed32
     [] T.k \in {"f32", "f64"} -> v
     [] T.k = "string" -> v
     [] T.k = "bytes" -> v.b
